@@ -4,8 +4,9 @@
 set -e
 B=${1:?builddir}; MPI=${2:-}
 V=$(cd "$(dirname "$0")/.." && pwd)
+SRC=${VERIF_PIKA_SRC:-/repo}
 INSTR="-fsanitize=thread -mllvm -tsan-instrument-memory-accesses=0 -mllvm -tsan-instrument-func-entry-exit=0 -mllvm -tsan-instrument-memintrinsics=0 -Wno-unused-command-line-argument"
-COMMON=(-G Ninja -S /repo -B "$B" -DCMAKE_BUILD_TYPE=Debug -DCMAKE_CXX_COMPILER=clang++-14 -DCMAKE_C_COMPILER=clang-14
+COMMON=(-G Ninja -S "$SRC" -B "$B" -DCMAKE_BUILD_TYPE=Debug -DCMAKE_CXX_COMPILER=clang++-14 -DCMAKE_C_COMPILER=clang-14
   -DPIKA_WITH_TESTS=OFF -DPIKA_WITH_EXAMPLES=OFF -DPIKA_WITH_MALLOC=system
   -Dfmt_DIR=/usr/lib/x86_64-linux-gnu/cmake/fmt -DPIKA_WITH_UNITY_BUILD=ON -DPIKA_WITH_VERIFY_LOCKS=OFF
   -DPIKA_WITH_PRECOMPILED_HEADERS=OFF)
